@@ -8,7 +8,7 @@ Lock-up half  : model checking of Locks.tla (every interleaving of 2-3 concurren
 Data-race half: schedule sampling; the Go race detector is the observer of the ownership rule of Locks.tla
                 (each report -> trace event unsyncAccess, judged by Trace_Locks: no action permits it).
 """
-import json, os, re, shutil, subprocess, time
+import json, os, re, shutil, subprocess, threading, time
 import vlib
 
 # ----------------------------------------------------------------------------------------------------------------------
@@ -552,12 +552,13 @@ class Child:
         self.errf = open(os.path.join(self.dir, "stderr.txt"), "w")
         self.p = subprocess.Popen([binpath] + args + ["-dir", self.dir, "-out", self.out], cwd=self.dir, env=env,
                                   stdout=subprocess.DEVNULL, stderr=self.errf)
-
-    def wait(self):
-        left = self.wall - (time.time() - self.t0)
         self.killed = False
+        self.th = threading.Thread(target=self._reap, daemon=True)
+        self.th.start()
+
+    def _reap(self):
         try:
-            self.rc = self.p.wait(timeout=max(1, left))
+            self.rc = self.p.wait(timeout=max(1, self.wall))
         except subprocess.TimeoutExpired:
             self.killed = True
             self.p.send_signal(3)               # SIGQUIT: the Go runtime dumps every goroutine to stderr
@@ -566,6 +567,10 @@ class Child:
             except subprocess.TimeoutExpired:
                 self.p.kill()
                 self.rc = self.p.wait()
+        self.t1 = time.time()
+
+    def wait(self):
+        self.th.join()
         self.errf.close()
         self.stderr = open(os.path.join(self.dir, "stderr.txt"), errors="replace").read()
         self.result = None
@@ -798,10 +803,10 @@ def run(ctx):
         plan.append(("stress:move", ["stress", "-mix", "move", "-skip", skip_all if predicted else "", "-dur", "12000", "-workers", "4", "-seed", str(sd + 300), "-limit", "30000"], 12 + 30 + 60))
     else:
         for k in range(2):
-            plan.append(("stress:all", ["stress", "-mix", "all", "-dur", "60000", "-workers", "6", "-seed", str(sd * 10 + k), "-limit", "30000"], 60 + 30 + 90))
+            plan.append(("stress:all", ["stress", "-mix", "all", "-dur", "45000", "-workers", "6", "-seed", str(sd * 10 + k), "-limit", "30000"], 45 + 30 + 90))
         for k in range(4 if predicted else 2):
-            plan.append(("stress:all-noAll", ["stress", "-mix", "all", "-skip", skip_all if predicted else "", "-dur", "120000", "-workers", str(4 + 2 * (k % 3)),
-                                              "-seed", str(sd * 10 + 100 + k), "-limit", "40000"], 120 + 40 + 90))
+            plan.append(("stress:all-noAll", ["stress", "-mix", "all", "-skip", skip_all if predicted else "", "-dur", "90000", "-workers", str(4 + 2 * (k % 3)),
+                                              "-seed", str(sd * 10 + 100 + k), "-limit", "40000"], 90 + 40 + 90))
         for mix in ("compact", "move", "dht"):
             plan.append(("stress:" + mix, ["stress", "-mix", mix, "-skip", skip_all if predicted else "", "-dur", "45000", "-workers", "5",
                                            "-seed", str(sd * 10 + 200), "-limit", "40000"], 45 + 40 + 90))
@@ -821,7 +826,7 @@ def run(ctx):
             r = ch.result or {}
             crashed = any(e["op"] == "crash" for e in evs)
             planned = int(args[args.index("-dur") + 1])
-            ran = int((time.time() - ch.t0) * 1000)
+            ran = int((ch.t1 - ch.t0) * 1000)
             summary.append({"run": label, "gen": gen, "planned_ms": planned, "ran_ms": ran, "calls": sum(int(c["N"]) for c in r.get("calls", {}).values()),
                             "races": sum(1 for e in evs if e["op"] == "unsyncAccess"), "hang": any(e["op"] == "hang" for e in evs),
                             "crash": next((e["what"] for e in evs if e["op"] == "crash"), None), "downloaded": r.get("downloaded", 0)})
